@@ -46,7 +46,7 @@ static InvResult run_cli(bool yarac, const std::vector<std::string>& argv, uint6
     sched_spawn([&] { rc = yarac ? yarac_cli_main((int) argv.size(), av.data()) : yara_cli_main((int) argv.size(), av.data()); });
     SchedStatus ss = sched_run();
     emit(ss == SCHED_OK ? 0 : ss == SCHED_DEADLOCK ? 1 : 2, sched_stats().deadlock_info);
-    if (ss != SCHED_OK) { iso_emit(std::string("\x02") + "DONE\n"); _exit(0); }
+    if (ss != SCHED_OK) { iso_emit(std::string("\x02") + "DONE\n"); SIM_GCOV_DUMP(); _exit(0); }
     sched_end();
   }, timeout_s);
   J j; size_t nl = r.iso.out.find('\n');
@@ -343,7 +343,42 @@ static std::string dval_rules(const DVal& d, const std::string& v) {
   if (d.type == 'b') return "rule d_b { condition: " + v + " }\nrule d_nb { condition: not " + v + " }\n";
   return "rule d_s1 { condition: " + v + " contains \"needle\" }\nrule d_s2 { condition: " + v + " == \"007x\" or " + v + " == \"1e5\" or " + v + " == \"True\" or " + v + " == \"-\" or " + v + " == \"a=b\" }\nrule d_s3 { condition: " + v + " matches /^hay / }\n";
 }
+// definitions the library rejects (unknown identifier, wrong type) and malformed -d arguments: the command line must
+// say so and fail, wherever the bad definition stands among several
+struct BadDef { const char* name; std::vector<std::string> defs; bool compiled; };
+static const BadDef BADDEFS[] = {
+  {"unknown-identifier-first", {"-d", "nosuch=1", "-d", "v=7"}, true}, {"unknown-identifier-last", {"-d", "v=7", "-d", "nosuch=1"}, true},
+  {"wrong-type-first", {"-d", "v=abc", "-d", "w=2"}, true}, {"wrong-type-last", {"-d", "w=2", "-d", "v=abc"}, true}, {"wrong-type-float", {"-d", "v=2.5"}, true},
+  {"no-equal-sign-compiled", {"-d", "v"}, true}, {"no-equal-sign-source", {"-d", "w"}, false},
+};
+static const int NBADDEFS = sizeof(BADDEFS) / sizeof(BADDEFS[0]);
+static void run_c20cli_bad(uint64_t seed, int64_t run, int which, Stats& st, std::set<std::string>& reported, bool replaying) {
+  const BadDef& b = BADDEFS[which];
+  std::string work = tmp_dir() + "/c20cli"; mkdirs(work);
+  std::string rules = work + "/bad.yar", yarc = work + "/bad.yarc", target = work + "/target.txt";
+  write_file(rules, "rule r_v { condition: v == 7 }\nrule r_w { condition: w == 2 }\n"); write_file(target, "some text\n"); unlink(yarc.c_str());
+  SchedPolicy p1; p1.kind = 2; p1.switch_den[0] = 64; p1.bb_mean = 1000000; p1.max_steps = 50000000;
+  InvResult got;
+  if (b.compiled) {
+    InvResult c = run_cli(true, {"yarac", "-d", "v=1", "-d", "w=1", rules, yarc}, 1, p1, 1); st.c["cli_invocations"]++;
+    if (c.status != 0 || c.rc != 0) { emit_note("c20cli: yarac failed for the rejected-definition cases"); return; }
+    std::vector<std::string> av{"yara"}; for (auto& d : b.defs) av.push_back(d); av.push_back("-C"); av.push_back(yarc); av.push_back(target);
+    got = run_cli(false, av, 1, p1, 1);
+  } else {
+    std::vector<std::string> av{"yara", "-d", "v=7"}; for (auto& d : b.defs) av.push_back(d); av.push_back(rules); av.push_back(target);
+    got = run_cli(false, av, 1, p1, 1);
+  }
+  st.runs++; st.c["cli_invocations"]++; st.c["c20cli.rejected_definition_cases"]++; st.c["faults_fired.invalid_define_on_command_line"]++;
+  Hash64 h; h.add("c20bad"); h.addu(which); st.hash(h.h);
+  std::string sig, klass, detail; std::string at = std::string("yara ") + join(b.defs) + (b.compiled ? "-C RULES.yarc FILE" : "RULES FILE") + ": ";
+  if (got.status == 3) { klass = "crash"; sig = std::string("cli-ext|rejected-definition|") + b.name + "|crash|" + sim_crash_signature(got.iso); detail = at + got.iso.err.substr(0, 1000); }
+  else if (got.status != 0) { klass = "hang"; sig = std::string("cli-ext|rejected-definition|") + b.name + "|no-termination"; detail = at; }
+  else if (got.rc == 0 || got.err.empty()) { klass = "invalid-definition-not-reported"; sig = std::string("cli-ext|rejected-definition|") + b.name + (got.rc == 0 ? "|exit-status-zero" : "|no-diagnostic"); detail = at + "exit status " + std::to_string(got.rc) + ", stderr '" + got.err.substr(0, 160) + "', stdout '" + replace_all(got.out, target, "F").substr(0, 120) + "'"; }
+  if (!sig.empty()) { st.c["viol." + klass]++; if (reported.insert(sig).second || replaying) { J rp = J::obj(); rp.set("engine", "sim_cli"); rp.set("c20cli", true); rp.set("seed", (int64_t) seed); rp.set("run", run); emit_violation("C20", klass, sig, detail, rp); } }
+}
+
 static void run_c20cli(uint64_t seed, int64_t run, Stats& st, std::set<std::string>& reported, bool replaying) {
+  if (run >= (int64_t) NDVALS * 3) { run_c20cli_bad(seed, run, (int) ((run - NDVALS * 3) % NBADDEFS), st, reported, replaying); return; }
   const DVal& d = DVALS[run % NDVALS]; int level = (int) ((run / NDVALS) % 3);   // 0: yara RULES, 1: yarac -d then yara -C, 2: yarac with a placeholder then yara -C -d
   static const char* LV[] = {"yara-source", "yarac-define", "compiled-rules-redefine"};
   std::string work = tmp_dir() + "/c20cli"; mkdirs(work);
